@@ -191,6 +191,13 @@ theorem assembly_rotation_invariant {v v' : Ent} {mods mods' : List Ent} {pid pn
     ∃ p', (assemble v' mods' pid pname).1 = .ok p' ∧ p'.rcd.seq = p.rcd.seq ∧ p'.unused = p.unused :=
   assemble_sameRole h (sameRole_of_rotated hv) (hm.imp (fun _ _ hr => sameRole_of_rotated hr))
 
+/-- … and when the assembly fails, the assembly of the rotated inputs fails with the same error: the whole
+outcome is rotation-invariant -/
+theorem assembly_rotation_invariant_outcome {v v' : Ent} {mods mods' : List Ent} (pid pname : Nat)
+    (hv : Rotated v v') (hm : List.Forall₂ Rotated mods mods') :
+    OutcomeSame (assemble v mods pid pname).1 (assemble v' mods' pid pname).1 :=
+  assemble_sameRole_outcome pid pname (sameRole_of_rotated hv) (hm.imp (fun _ _ hr => sameRole_of_rotated hr))
+
 /-- the hypothesis `ThreeGroups` holds for every concrete class of the five kits (as their structures are
 now: kernel-checked on the regenerated table) and for every generic and signature-typed structure -/
 theorem kit_classes_three_groups : ∀ r ∈ Generated.kits, ThreeGroups r.pat := by
